@@ -207,6 +207,16 @@ func ResolveAnchors(p *Prog) *Anchors {
 				if fn, ok := c.(*types.Func); ok && fn.Name() == "OnError" && fn.Pkg() != nil && fn.Pkg().Path() == PkgFingerprint {
 					callsOnError = true
 				}
+				// ... or a function of the fingerprint package that builds the checker and calls its OnError
+				if fn, ok := c.(*types.Func); ok && fn.Pkg() != nil && fn.Pkg().Path() == PkgFingerprint {
+					if h := p.DeclOf(fn); h != nil && h.Decl != nil && h.Decl.Recv == nil {
+						for _, hc := range callsIn(h, false) {
+							if hf, ok := callee(h.Info(), hc).(*types.Func); ok && hf.Name() == "OnError" && hf.Pkg() != nil && hf.Pkg().Path() == PkgFingerprint {
+								callsOnError = true
+							}
+						}
+					}
+				}
 				if fn, ok := c.(*types.Func); ok && fn.Name() == "MkdirAll" && fn.Pkg() != nil && fn.Pkg().Path() == "os" {
 					callsMkdirAll = true
 				}
@@ -588,6 +598,10 @@ func (a *Anchors) computeReachCmd() {
 		return
 	}
 	a.reachCmd[a.CmdRunner.Obj] = true
+	if a.ShellExec != nil && a.ShellExec.Obj != nil {
+		// a function that calls the shell executor directly (bypassing the dispatching runner) runs a command just the same
+		a.reachCmd[a.ShellExec.Obj] = true
+	}
 	for changed := true; changed; {
 		changed = false
 		for _, fb := range a.P.BodiesIn(PkgTask) {
